@@ -23,12 +23,13 @@ type Op struct {
 	V    int      `json:"v"`
 	RV   int      `json:"rv"`
 	OK   bool     `json:"ok"`
-	Keys []string `json:"keys,omitempty"`
 }
 
 type History struct {
-	Cap int  `json:"cap"`
-	Ops []Op `json:"ops"`
+	Cap    int  `json:"cap"`
+	Ops    []Op `json:"ops"`
+	NT     bool `json:"nt"`     // non-trivial, as computed by the specification
+	NilAbs bool `json:"nilabs"` // contains a nil Put of an absent key (computed by the specification)
 }
 
 // sessions: value id -> distinct pointer; id 0 is the nil session
@@ -78,35 +79,15 @@ func runHistory(h History) (int, string) {
 	return -1, ""
 }
 
-// classify gives the violation a signature that is specific to the failing pattern.
+// classify gives the violation a signature that is specific to the failing pattern; the
+// abstract facts about the history come from the specification (History.NilAbs).
 func classify(h History, at int) map[string]any {
-	// abstract facts about the prefix: was there a nil Put of an absent key, an eviction,
-	// an overwrite; what kind of disagreement is it.
-	present := map[string]bool{}
-	nilAbsent, nilPresent := false, false
-	for _, op := range h.Ops[:at] {
-		if op.Op == "put" {
-			if op.V == 0 {
-				if present[op.K] {
-					nilPresent = true
-				} else {
-					nilAbsent = true
-				}
-			}
-		}
-		present = map[string]bool{}
-		for _, k := range op.Keys {
-			present[k] = true
-		}
-	}
 	op := h.Ops[at]
-	kind := "wrong-value"
+	kind := "phantom-entry" // spec: absent, real: present
 	if op.OK {
-		kind = "missing-entry" // spec: present, real: absent or other value
-	} else {
-		kind = "phantom-entry" // spec: absent, real: present
+		kind = "missing-or-wrong-entry" // spec: present with a value, real: absent or other value
 	}
-	return map[string]any{"kind": kind, "after_nil_put_of_absent_key": nilAbsent, "after_nil_put_of_present_key": nilPresent}
+	return map[string]any{"kind": kind, "after_nil_put_of_absent_key": h.NilAbs}
 }
 
 func main() {
@@ -202,22 +183,7 @@ func main() {
 	}
 }
 
-func nontrivial(h History) bool {
-	// an eviction, an overwrite or a nil Put occurs
-	present := map[string]bool{}
-	for _, op := range h.Ops {
-		if op.Op == "put" {
-			if op.V == 0 || present[op.K] || len(present) == h.Cap {
-				return true
-			}
-		}
-		present = map[string]bool{}
-		for _, k := range op.Keys {
-			present[k] = true
-		}
-	}
-	return false
-}
+func nontrivial(h History) bool { return h.NT }
 
 // record runs the ops on the real cache and logs what it returned.
 func record(w *obs.Writer, h History) {
